@@ -11,7 +11,7 @@ def sh(cmd, **kw):
 
 
 def main():
-    d = sys.argv[1].rstrip("/")
+    d = os.path.abspath(sys.argv[1].rstrip("/"))
     tier = "quick"
     if "--tier" in sys.argv:
         tier = sys.argv[sys.argv.index("--tier") + 1]
